@@ -236,11 +236,34 @@ func (e *Exec) runHeap() *Violation {
 		switch s.Op {
 		case "hdrain":
 			rounds := max(1, N/max(1, 2*S))
-			for round := 0; round < rounds; round++ {
-				fill(keys[:S])
-				for _, k := range keys[:S] {
+			// s.Pad==1: every round uses keys never seen before (still at most S stored at a time)
+			counter := uint64(0)
+			freshKey := func() []byte {
+				counter++
+				switch kt.Kind {
+				case "alpha", "collation":
+					return []byte(fmt.Sprintf("fresh-%d", counter))
+				case "compound":
+					k := clone(keys[0])
+					copy(k[0:8], u64bytes(normField(kt.Schema[0], kt.Bits32, counter)))
+					return k
+				}
+				return u64bytes(normField(kt.T, kt.Bits32, counter*2654435761))
+			}
+			round := make([][]byte, S)
+			for rd := 0; rd < rounds; rd++ {
+				cur := keys[:S]
+				if s.Pad == 1 {
+					for j := range round {
+						round[j] = freshKey()
+					}
+					cur = round
+				}
+				fill(cur)
+				for _, k := range cur {
 					api.Delete(k)
 				}
+				round := rd
 				if round%64 == 63 {
 					runtime.GC()
 				}
@@ -283,8 +306,11 @@ func (e *Exec) runHeap() *Violation {
 					stop := r.Intn(8)
 					api.Seq("back", nil, nil, 0)(func([]byte, uint64, bool) bool { stop--; return stop > 0 })
 				case 7:
-					api.Seq("topk", nil, nil, 3)(func([]byte, uint64, bool) bool { return true })
-					api.Seq("botk", nil, nil, 3)(func([]byte, uint64, bool) bool { return true })
+					// sometimes consumed to the end, sometimes left after the first pair or two
+					stop := r.Intn(4)
+					api.Seq("topk", nil, nil, 5)(func([]byte, uint64, bool) bool { stop--; return stop != 0 })
+					stop = r.Intn(4)
+					api.Seq("botk", nil, nil, 5)(func([]byte, uint64, bool) bool { stop--; return stop != 0 })
 				case 8:
 					if kt.Kind != "collation" {
 						stop := 4
@@ -410,6 +436,9 @@ func genHeapTrace(seed uint64, run int, o genOpts) *Trace {
 	tr.Steps = []Step{{T: 0, Op: class, N: N, V: uint64(size), K: u64bytes(r.U64())}}
 	if class == "hquery" && r.Chance(2, 3) {
 		tr.Steps[0].Pad = r.Range(1, 9) // an unbroken run of one kind of query
+	}
+	if class == "hdrain" && r.Chance(1, 2) {
+		tr.Steps[0].Pad = 1 // fresh keys every round
 	}
 	return tr
 }
